@@ -36,8 +36,14 @@ fn split_at<'a>(data: &'a [u8], cuts: &[usize]) -> Vec<&'a [u8]> {
     v
 }
 
+// names and paths are printed as "x" + the hex of their bytes: they may contain any character, including this protocol's separators
 fn esc(s: &str) -> String {
-    if s.is_empty() { "\"\"".to_string() } else { s.replace(' ', "\\s").replace('\r', "\\r") }
+    let mut o = String::with_capacity(1 + 2 * s.len());
+    o.push('x');
+    for b in s.bytes() {
+        o.push_str(&format!("{:02x}", b));
+    }
+    o
 }
 
 fn lookup(sm: &samply_symbols::SymbolMap<MemHelper>, a: u32) -> String {
